@@ -113,7 +113,7 @@ func C03(r *drv.Run) {
 	if !quick(r) {
 		n, ntext = 200000, 12
 	}
-	r.Rule = "programs from the union of all generators (core language, regex literals, named loops, whole line/word/file, every amount clause, replace commands) x multi-line inputs derived from the program (newline-heavy alphabet, \\r\\n, some non-ASCII). Plus the exhaustive capture shapes of C02 (first alternatives that fail, abandoned iterations, named loops over inner loops) on all texts over {a,b} up to length 4, and its last-path shapes (an optional capture on the path tried last) on all texts over {a,b,c} up to length 4; plus linear-time programs over long inputs (thousands of short lines, single lines of 6 000 and 70 000 bytes, CR LF line ends, matches spanning newlines; offsets beyond 65 536, line numbers beyond 2 000, columns beyond 5 000; and three programs - among them `whole file`, one read of the whole input - on inputs of 1 MiB + 37, 2 MiB and 2 MiB + 600 bytes). The same invariants on what RunFiles reports for files on disk that begin with byte-order marks (UTF-8, UTF-16, half of one, two of them), an interpreter line, magic numbers, NUL bytes or an empty line, of sizes up to 9 000 bytes on both sides of 4 096. Characters whose code point ends in the byte of a line feed, carriage return, tab or blank (U+010A, U+4E0A, U+1F60A, U+010D ...) consumed whole by literals, negated literals, back-references, ranges and whole file/line, and skipped by the scan (32 programs x 13 texts). RunFiles searching file NAMES (third argument): six find programs over ten spellings of directory and file arguments - the searched text of a match is the name it reports as Filename. Oracle: invariants recomputed from the input text alone on every reported match: bounds, Value == text[Start:End], order/non-overlap, consecutive MatchNumber (first number fixed by the amount clause), 1-based Line and byte Column of both ends from a newline index (columns: ASCII texts only), every string variable - recursively through named-loop maps - a substring of Value. Non-trivial = run returned >= 1 match; distinct by (program, text)."
+	r.Rule = "programs from the union of all generators (core language, regex literals, named loops, whole line/word/file, every amount clause, replace commands) x multi-line inputs derived from the program (newline-heavy alphabet, \\r\\n, some non-ASCII). Plus the exhaustive capture shapes of C02 (first alternatives that fail, abandoned iterations, named loops over inner loops) on all texts over {a,b} up to length 4, and its last-path shapes (an optional capture on the path tried last) on all texts over {a,b,c} up to length 4; plus linear-time programs over long inputs (thousands of short lines, single lines of 6 000 and 70 000 bytes, a text whose candidates are 3 000 .. 20 000 bytes and many lines apart, CR LF line ends, matches spanning newlines; offsets beyond 65 536, line numbers beyond 2 000, columns beyond 5 000; and three programs - among them `whole file`, one read of the whole input - on inputs of 1 MiB + 37, 2 MiB and 2 MiB + 600 bytes). The same invariants on what RunFiles reports for files on disk that begin with byte-order marks (UTF-8, UTF-16, half of one, two of them), an interpreter line, magic numbers, NUL bytes or an empty line, of sizes up to 9 000 bytes on both sides of 4 096. Characters whose code point ends in the byte of a line feed, carriage return, tab or blank (U+010A, U+4E0A, U+1F60A, U+010D ...) consumed whole by literals, negated literals, back-references, ranges and whole file/line, and skipped by the scan (32 programs x 13 texts). RunFiles searching file NAMES (third argument): six find programs over ten spellings of directory and file arguments - the searched text of a match is the name it reports as Filename. Oracle: invariants recomputed from the input text alone on every reported match: bounds, Value == text[Start:End], order/non-overlap, consecutive MatchNumber (first number fixed by the amount clause), 1-based Line and byte Column of both ends from a newline index (columns: ASCII texts only), every string variable - recursively through named-loop maps - a substring of Value. Non-trivial = run returned >= 1 match; distinct by (program, text)."
 	r.Assumptions = []string{
 		"single-command programs (results of several commands are concatenated; C13 covers that)",
 		"column claim checked on ASCII texts only, as the property says",
@@ -302,6 +302,36 @@ func c03Long(r *drv.Run) {
 		return b
 	}
 	texts = append(texts, mk(0, 3000, 0, 12, "\n"), mk(1, 2500, 3, 30, "\r\n"), mk(2, 1, 6000, 6000, "\n"), mk(3, 3, 70000, 70000, "\n"), mk(4, 40, 1000, 4200, "\n"), mk(5, 5000, 0, 1, "\n"))
+	// SPARSE candidates: stretches of 3 000 .. 20 000 bytes (many lines) that hold neither a digit nor a capital letter,
+	// then one in the middle of a line - whatever a scan does to get across such a stretch, lines and columns stay right
+	{
+		rng := gen.Derive(r.Seed, "C03sparse", 0)
+		var b []byte
+		for _, gap := range []int{3000, 4095, 4096, 4097, 5000, 8192, 8193, 12288, 20000, 4096, 4096} {
+			for g := 0; g < gap; g++ {
+				if rng.Intn(37) == 0 {
+					b = append(b, '\n')
+				} else {
+					b = append(b, "abc xyz"[rng.Intn(7)])
+				}
+			}
+			b = append(b, "Qz7 ab"...)
+		}
+		for g := 0; g < 5000; g++ {
+			b = append(b, "ab c\n"[rng.Intn(5)])
+		}
+		texts = append(texts, b)
+	}
+	progs = append(progs, struct {
+		src string
+		am  gen.Amount
+	}{"find all 'Qz'", gen.Amount{Kind: "all"}}, struct {
+		src string
+		am  gen.Amount
+	}{"replace all 'Q' with 'R' columnNumber", gen.Amount{Kind: "all"}}, struct {
+		src string
+		am  gen.Amount
+	}{"find all 'z7 ' letter", gen.Amount{Kind: "all"}})
 	// inputs beyond a mebibyte, for programs that take them in few steps (one read of the whole input) or linearly
 	nSmall := len(progs)
 	progs = append(progs, struct {
